@@ -305,6 +305,17 @@ func verifDecodeArgs(id int, cur *verifCur) []interface{} {
 	return args
 }
 
+// verifMinAllocs returns the minimum of up to `attempts` measurements of testing.AllocsPerRun(runs, f).
+func verifMinAllocs(runs, attempts int, f func()) float64 {
+	best := testing.AllocsPerRun(runs, f)
+	for i := 1; i < attempts && best != 0; i++ {
+		if a := testing.AllocsPerRun(runs, f); a < best {
+			best = a
+		}
+	}
+	return best
+}
+
 func TestVerifC15(t *testing.T) {
 	out := verifOpenOut()
 	defer out.Close()
@@ -400,7 +411,11 @@ func TestVerifC15(t *testing.T) {
 		}
 
 		// ---- monitor: no heap allocation ----
-		allocs := testing.AllocsPerRun(1, func() {
+		// (testing.AllocsPerRun counts the mallocs of the whole process and returns the integer average
+		// over the runs: a formatter that allocates does so on every call, so it yields >= 1 in every
+		// attempt, whereas a stray allocation by the runtime or another goroutine does not survive the
+		// average over 5 runs and the minimum over up to 4 attempts.)
+		allocs := verifMinAllocs(5, 4, func() {
 			sink.n = 0
 			Fprintf(sink, format, args...)
 		})
@@ -408,6 +423,34 @@ func TestVerifC15(t *testing.T) {
 			nAlloc++
 			out.Mon(c.id, "c15:heap-allocation", "Fprintf(%.80q, %d args) performed %v heap allocations per call", format, len(args), allocs)
 		}
+	}
+	// ---- monitor: direct call sites (values boxed at the call) must not allocate either: this is what
+	// breaks when the arguments start to escape (e.g. without the noEscape hack in doWrite) ----
+	{
+		x := uint64(nWell) + 100000
+		y := int32(-40000 - nWell)
+		z := -int64(nWell) - (1 << 40)
+		s := string(bytes.Repeat([]byte{'q'}, 3+nWell%3))
+		b := []byte(s)
+		flag := nWell%2 == 0
+		directID := 0
+		allocs := verifMinAllocs(20, 4, func() {
+			sink.n = 0
+			Fprintf(sink, "%d %8x %s %12s %t %o|%d %x", x, y, s, b, flag, x, z)
+			// a byte slice that lives on the caller's stack must be allowed to stay there
+			var local [24]byte
+			for i := range local {
+				local[i] = 'a' + byte(i)
+			}
+			Fprintf(sink, "%30s|%s", local[:], local[3:9])
+			outputSink = sink
+			Printf("%d %s\n", y, s)
+			outputSink = nil
+		})
+		if allocs != 0 {
+			out.Mon(directID, "c15:heap-allocation-at-call-site", "Fprintf/Printf called with freshly boxed integer, string, []byte, bool arguments and a stack-allocated byte slice performed %v heap allocations per call", allocs)
+		}
+		out.Info("c15-direct-call-allocs", "%v", allocs)
 	}
 	out.Info("c15", "wellformed=%d panics=%d runaway=%d allocating=%d bytes=%d", nWell, nPanic, nRunaway, nAlloc, totalBytes)
 }
